@@ -280,6 +280,14 @@ func (v *Verifier) applyContract(st *State, in ssa.Instruction, key string, ct *
 	}
 	se := &SpecEnv{e: v.env, s: st, old: nil, vars: vars, pkg: ct.Pkg, qn: &v.qn}
 	for _, r := range ct.Requires {
+		if v.contract != nil && v.contract.AssumePre != nil {
+			if why, ok := v.contract.AssumePre[short+"."+r.Label]; ok {
+				v.noteOnce("assume precondition " + r.Label + " of " + short + " at its call sites in " + v.key + " (assumepre): " + why)
+				v.assumeCount++
+				st.assume(se.evalBool(r.E))
+				continue
+			}
+		}
 		v.emit(st, "pre", short+"."+r.Label+"@"+v.siteLabel(in), se.evalBool(r.E), r.Props, "requires "+r.Text, in)
 		st.assume(se.evalBool(r.E))
 	}
